@@ -1085,6 +1085,22 @@ class ProgGen:
 		self.fixed_calls[name] = [[[3, -1, 4], {'a': 5, 'b': 0}, 'xaab', 1], [[0, 2, 7, 1], {'b': -3, 'zz': 1}, 'abcab', 2], [[1], {'a': -1}, 'ab', 0]] + \
 			[[self.pick(xss), self.pick(ds), self.pick(['a', 'b', '', 'ab', 'xaab']), self.pick([-1, 0, 1, 2, 3, 6])] for _ in range(3)]
 
+	def gen_optional_func(self) -> None:
+		"""Optional values in both member orders (None | T and T | None), looked through by subscript, iteration, len and attribute access
+		after an `is not None` test (outside C01's domain: the C++ side has no None)."""
+		name = f'f{len(self.funcs)}'
+		a, b = self.fresh('a'), self.fresh('a')
+		v1, v2, v3, v4, r_, e = self.fresh(), self.fresh(), self.fresh(), self.fresh(), self.fresh(), self.fresh('e')
+		body = [f'\t{v1} = None if {b} else [{a}, 1]', f'\t{v2} = [{a}] if {b} else None', f'\t{v3}: dict[str, int] | None = None', f'\t{v4}: None | list[int] = [{a}]', f'\t{r_} = 0',
+			f'\tif {v1} is not None:', f'\t\t{r_} += {v1}[0]', f'\t\tfor {e} in {v1}:', f'\t\t\t{r_} += {e}',
+			f'\tif {v2} is not None:', f'\t\t{r_} += {v2}[0] + len({v2})',
+			f'\tif {v3} is None:', f"\t\t{v3} = {{'k': {a}}}", f"\t{r_} += {v3}['k']",
+			f'\tif {v4} is not None:', f'\t\t{r_} += {v4}[0]', f'\treturn {r_}']
+		self.rnd.shuffle(body[:0])
+		self.lines += [f'def {name}({a}: int, {b}: bool) -> int:'] + body + ['']
+		self.funcs.append((name, [(a, T_INT, None), (b, T_BOOL, None)], T_INT, {'optional'}))
+		self.fixed_calls[name] = [[3, True], [4, False]]
+
 	def gen_inner_func(self, cname: str) -> None:
 		"""Uses the class nested in `cname` through its qualified name, with inferred declarations and as a list element type."""
 		k = int(cname[1:])
@@ -1327,6 +1343,8 @@ class ProgGen:
 				self.gen_generic_func(g)
 		if self.chance(0.4) and self.on('container-probe'):
 			self.gen_container_func()
+		if self.chance(0.25) and self.on('optional'):
+			self.gen_optional_func()
 		header = ['from enum import Enum'] if self.enums else []
 		if self.generics:
 			header.append('from typing import Generic, TypeVar')
